@@ -353,6 +353,10 @@ func (p *VipnodePool) connect(ctx context.Context, nodeID string, req ConnectReq
 func (p *VipnodePool) Peer(ctx context.Context, sig string, nodeID string, nonce int64, req PeerRequest) (*PeerResponse, error) {
 	// TODO: Should we use protocol capability (eth, les, pip) instead of Kind?
 	// It's hard to get self-reported protocol capability versions though (les/2 vs just les).
+	if err := p.verify(sig, "vipnode_peer", nodeID, nonce, req); err != nil {
+		return nil, err
+	}
+
 	hosts, err := p.requestHosts(ctx, nodeID, req.Num, req.Kind)
 	if err != nil {
 		return nil, err
